@@ -88,6 +88,11 @@ impl Next<f64> for EfficiencyRatio {
             previous = *n;
         }
 
+        if volatility == 0.0 {
+            // Flat window: no movement at all, avoid 0 / 0.
+            return 0.0;
+        }
+
         (first - input).abs() / volatility
     }
 }
